@@ -172,9 +172,10 @@ func (o *COp) Coq() string {
 }
 
 type condRun struct {
-	c     stk.Condition
-	nodes map[string]*Node // ID -> description of every Stack / Condition built for this history
-	nid   int
+	invariant string
+	c         stk.Condition
+	nodes     map[string]*Node // ID -> description of every Stack / Condition built for this history
+	nid       int
 }
 
 // register gives every Stack / Condition node below n a unique ID so that a
@@ -282,7 +283,19 @@ func (h *condRun) exec(o *COp) {
 		h.register(o.Ex)
 		h.c = stk.Cond(o.Kw.Build(), o.Opr.Build(), o.Ex.Build())
 	case "init":
+		// Init gives THIS handle a fresh instance; whoever else holds the
+		// former one (a copy, a Stack it was pushed into) keeps what was accepted
+		held := h.c
+		wasInit := held.IsInit()
+		kw, s0 := held.Keyword(), ""
+		if wasInit {
+			s0 = held.String()
+		}
 		h.c.Init()
+		if wasInit && h.invariant == "" && (held.Keyword() != kw || held.String() != s0 || !held.IsInit()) {
+			h.invariant = fmt.Sprintf("Init() on one handle changed what another handle to the former instance shows: keyword %q -> %q, String %q -> %q",
+				kw, held.Keyword(), s0, held.String())
+		}
 	case "setkw":
 		h.c.SetKeyword(o.Kw.Build())
 	case "setop":
@@ -449,7 +462,7 @@ func runCond(raw json.RawMessage) (res *Result, err error) {
 	sort.Strings(tl)
 	coq := fmt.Sprintf("(MkCase %s %s %s)", coqList(opTs), coqList(obTs), coqBool(panicked))
 	_ = sawReject
-	return &Result{Coq: coq, Observed: recs, Tags: tl, Nontrivial: nset >= 3 && len(kinds) >= 2}, nil
+	return &Result{Coq: coq, Observed: recs, Tags: tl, Nontrivial: nset >= 3 && len(kinds) >= 2, Invariant: h.invariant}, nil
 }
 
 // ---------------------------------------------------------------------------
